@@ -33,7 +33,12 @@ def run(ctx):
     extra = ["-seed", str(ctx.seed + 1), "-triples", "8" if q else "14", "-watchdog", "2s" if q else "10s", "-templates", "20000" if q else "2000000"]
     if ctx.replay:
         rep = json.load(open(ctx.replay))
-        tf, _, _ = produce(ctx, "replay", extra + ["-only", rep["case"]["line"]["fn"]])
+        rargs = extra + ["-only", rep["case"]["line"]["fn"]]
+        if rep["case"]["line"]["kind"] == "template":
+            tfile = os.path.join(ctx.work, "replay_templates.ndjson")
+            open(tfile, "w").write(json.dumps(rep["case"]["line"]["args"][0]) + "\n")
+            rargs += ["-tplfile", tfile]
+        tf, _, _ = produce(ctx, "replay", rargs)
         if rep["key"] in {key_for(n, l) for n, l in validate(ctx, tf)}:
             print(f"VIOLATION property=C04 replay={ctx.replay}")
             return 1
@@ -48,7 +53,12 @@ def run(ctx):
     for key, (name, line) in sorted(vlib.limit_new(by_key, "C04").items()):
         if key not in known:
             # confirm on an otherwise idle run of just that function/operator with a longer watchdog
-            tf2, _, _ = produce(ctx, "confirm", ["-seed", str(ctx.seed + 1), "-triples", "8" if q else "14", "-watchdog", "6s" if q else "20s", "-templates", "0", "-only", line["fn"]])
+            cargs = ["-seed", str(ctx.seed + 1), "-triples", "8" if q else "14", "-watchdog", "6s" if q else "20s", "-templates", "0", "-only", line["fn"]]
+            if line["kind"] == "template":
+                tfile = os.path.join(ctx.work, "confirm_templates.ndjson")
+                open(tfile, "w").write(json.dumps(line["args"][0]) + "\n")
+                cargs += ["-tplfile", tfile]
+            tf2, _, _ = produce(ctx, "confirm", cargs)
             if key not in {key_for(n, l) for n, l in validate(ctx, tf2)}:
                 raise vlib.Infra(f"violation {key} did not reproduce on a confirming run")
         ctx.violation(key, f"{name}: {line['kind']} {line['fn']}({', '.join(line['args'])}) -> {line['outcome']}: {line['detail'][:200]}", dict(pred=name, line=line))
